@@ -33,7 +33,7 @@ ASSUMPTIONS = ['gfortran 12 -O0 with -fcheck=bounds,do -ftrapv -ffpe-trap is the
                'the trigger of a listed root cause is generated only while its compile-only probe (PROBES) shows the defect '
                'absent from the tree under test; the committed replay files keep the triggers']
 SHARDS = {'quick': 8, 'thorough': 16}
-BUDGET = {'quick': 80, 'thorough': 1500}
+BUDGET = {'quick': 70, 'thorough': 1500}
 
 OPT_BASELINE = {'extract_internals': False, 'outline_regions': False}
 EP_OPTS = {'trafo_module': ('extract_internals', 'outline_regions'), 'trafo_file': ('extract_internals', 'outline_regions')}
@@ -96,6 +96,7 @@ def executes(spec, case):
 ROOT_CAUSES = ['extract:derived-type-imported-by-enclosing-module', 'extract:host-array-referenced-in-several-forms',
                'extract:host-parameter-becomes-dummy-argument', 'outline:array-extent-variable-not-passed',
                'outline:variable-only-enquired-about-not-passed', 'outline:variable-spelled-in-different-letter-case',
+               'outline:parameter-declared-after-use-as-extent',
                'extract:new-dummy-is-inout-though-only-read', 'extract:call-between-internal-procedures-not-updated',
                'transform_file:keyword-arguments-to-external-procedure', 'transform_file:extracted-function-undeclared-in-caller']
 
@@ -198,6 +199,22 @@ contains
   end subroutine kernel
 end module kmod
 """),
+    'outline:parameter-declared-after-use-as-extent': ('outline', {}, """module kmod
+  implicit none
+contains
+  subroutine kernel(n, y)
+    integer, intent(in) :: n
+    real(kind=8), intent(inout) :: y
+    integer, parameter :: lp0 = 4
+    real(kind=8) :: za(lp0)
+    za = 1.0
+!$loki outline
+    za(1) = za(3) + y + lp0
+!$loki end outline
+    y = y + sum(za)
+  end subroutine kernel
+end module kmod
+"""),
     'extract:new-dummy-is-inout-though-only-read': ('extract', {}, """module kmod
   implicit none
 contains
@@ -272,7 +289,8 @@ def defect_present(name):
         try:
             sf = _parse(text)
             _transform(sf, ep, opts)
-            res = harness.native().build_run('probe', [('kmod.f90', sf.to_fortran() + '\n')], None, run=False)
+            res = harness.native().build_run('probe', [('kmod.f90', sf.to_fortran() + '\n')], None, run=False,
+                                             flags=['-fsyntax-only'])
             _present[name] = res.stage != 'compiled'
         except Exception:  # noqa: loki raises on the probe program = the defect is present
             _present[name] = True
@@ -313,7 +331,11 @@ def exclusions(spec):
         if fl.get('mixed_case') and defect_present('outline:variable-spelled-in-different-letter-case'):
             fl['mixed_case'] = False
             why.append('outline: variable spelled in different letter case inside the region -> declared twice')
-        if fl.get('reg_dimvar') and fl.get('reg_dimvar_implicit') and defect_present('outline:array-extent-variable-not-passed'):
+        if fl.get('reg_param_dim') and defect_present('outline:parameter-declared-after-use-as-extent'):
+            fl['reg_param_dim'] = False
+            why.append('outline: PARAMETER used as extent of a region array is declared after that array')
+        if (fl.get('reg_dimvar') or fl.get('reg_param_dim')) and fl.get('reg_dimvar_implicit') \
+                and defect_present('outline:array-extent-variable-not-passed'):
             fl['reg_dimvar_implicit'] = False
             why.append('outline: extent variable of a region array not used in the region -> not passed')
         if fl.get('reg_inquiry_only') and defect_present('outline:variable-only-enquired-about-not-passed'):
@@ -400,6 +422,14 @@ def diagnose(spec):
                     for s in FindVariables().visit(v.dimensions):
                         if s.name.lower() not in visible and not getattr(s, 'parent', None):
                             found.add('outline:array-extent-variable-not-passed')
+            declared_so_far = set()
+            for v in r.variables:
+                if isinstance(v, sym.Array):
+                    for s in FindVariables().visit(v.dimensions):
+                        d = r.variable_map.get(s.name)
+                        if d is not None and d.type.parameter and s.name.lower() not in declared_so_far:
+                            found.add('outline:parameter-declared-after-use-as-extent')
+                declared_so_far.add(v.name.lower())
             args = {a.name.lower() for a in r.arguments}
             if any(v.type.intent and v.name.lower() not in args for v in r.variables):
                 found.add('outline:variable-only-enquired-about-not-passed')
@@ -484,5 +514,30 @@ def run_shard(ctx):
     ctx.given(GEN.specs(), X.check_case, ctx.scale(96, 3200), shrink=False)
 
 
+def quick_fail(spec):
+    """(coarse, detail) when loki raises on the case or the transformed text is rejected by the compiler front end, else None"""
+    from ..fprog import harness
+    case = GEN.build(spec)
+    rendered = harness.render_case(case)
+    try:
+        cand_files, _ = apply_ep(spec, rendered, case['meta'])
+    except Exception as e:  # noqa
+        exc = _innermost(e)
+        if isinstance(exc, RuntimeError) and 'undefined' in str(exc):
+            return None
+        return 'loki-raises:' + type(exc).__name__, repr(e)[:400]
+    res = harness.native().build_run('rc', cand_files, None, run=False, flags=['-fsyntax-only'])
+    if res.stage != 'compiled':
+        return 'candidate-does-not-compile', harness.gfortran_error_class(res.err) + '\n' + res.err[-1200:]
+    return None
+
+
 def replay(case, ctx):
+    # stored cases of the listed root causes fail before anything runs: decide those without building the original
+    # (which compiles by construction); everything else goes through the full differential evaluation
+    bad = quick_fail(case['spec'])
+    if bad is not None:
+        ctx.case(case, False, ['ep:' + case['spec']['ep'], 'status:fail'])
+        ctx.fail(X.signature(case['spec'], bad[0]), case, bad[1])
+        return [(s, e['detail']) for s, e in ctx.failures.items()]
     return X.replay(case, ctx)
